@@ -128,10 +128,15 @@ def map_instance_labels(
     # Using the labelmap, actually change the labels in the array here
     prediction_arr_relabeled = _map_labels(prediction_arr, pred_labelmap)  # type:ignore
 
+    reference_arr = processing_pair._reference_arr
+    if prediction_arr_relabeled.dtype != reference_arr.dtype:
+        # new labels did not fit the input dtype: keep both arrays in the same, wider dtype
+        reference_arr = reference_arr.astype(prediction_arr_relabeled.dtype)
+
     # Build a MatchedInstancePair out of the newly derived data
     matched_instance_pair = MatchedInstancePair(
         prediction_arr=prediction_arr_relabeled,
-        reference_arr=processing_pair._reference_arr,
+        reference_arr=reference_arr,
     )
     return matched_instance_pair
 
